@@ -25,6 +25,12 @@ FORMAT_THEOREMS = [
     "C15_format_decode_agree", "C15_format_decode_agree_data", "C15_format_priority_refuted",
 ]
 
+HOLDER_THEOREMS = [
+    "C15_site_target_kernel", "C15_site_method_loc_kernel", "C15_site_unpack_static", "C15_codec_creation_frame",
+    "C15_codec_holders_disjoint", "C15_codec_complete", "C15_decoder_creation_frame_complete",
+    "C15_frame_history_holders", "C15_frame_class_statements", "C15_selfref_codec_refuted", "C15_selfref_codec_late",
+]
+
 CASE_TYPE = "env * (bool * mode * opts) * ty * val * res val"
 RUN = ("(fun c => match c with (E, (isp, m, dl), t, v, ex) => "
        "(if isp then run_pack_o E m dl t v else run_unpack E m t v) end)")
@@ -982,14 +988,19 @@ def run(ctx: vlib.Ctx):
         "dataclass fields) for encoders, decoders and their errors")
     ctx.trusted += [
         "C15: harness/c15lib.py materialiser (Python source of the class table and the Coq env denote the same schema; "
-        "predicted_has_method = which plain classes own __mashumaro_to_dict__), canonicaliser and exception reduction "
+        "predicted_has_method = which plain classes own __mashumaro_to_dict__; since round 6 compared on every run with the "
+        "class __dict__s of a fresh module AND recomputed inside Coq by C15Nailed.k_module_exec over kernel K115a - flags tie), "
+        "canonicaliser and exception reduction "
         "(raw / union / InvalidFieldValue(field,holder) / MissingField(field,holder))",
         "C15 model: CPython primitives modelled-not-verified: attribute lookup through the MRO (dispatch), list/dict .copy(), "
         "iteration and indexing of list/tuple, dict.get, int()/str()/date.fromisoformat on the generated alphabet; "
         "iteration/indexing of str and repr of containers are declined by the model (XUnmodelled, cases dropped and counted)",
-        "C15 frame model: the state is the class table with the per-class flag 'owns __mashumaro_to_dict__'; codec creation is "
-        "modelled as leaving the table untouched (holders are private to the codec) - the real holders are exercised only by "
-        "the frame oracle",
+        "C15 frame model: the state is the class table with the per-class flag 'owns __mashumaro_to_dict__' plus (round 6, "
+        "C15Holders.v) one registry of holder objects per codec; codec creation is the model's compilation of the shape type "
+        "over the decisions kernel K115a reads off pack_dataclass / unpack_dataclass / ValueSpec.attrs (receiver of the emitted "
+        "call, method location, nested-builder condition, registry lookup-or-create); the real registries, holder identities "
+        "and class __dict__s are compared with the model on every run (holders tie); setattr/getattr on holder objects and "
+        "object identity (fresh allocation) are modelled-not-verified",
     ]
     ctx.trusted += [
         "C15 format part of the model (C15Format.v): ONE document function and ONE parser per format are parameters of the "
@@ -1003,8 +1014,10 @@ def run(ctx: vlib.Ctx):
         "tables the kernel K13C reads off mashumaro/mixins/*.py, where a built-in dialect (date strategy, no_copy_collections) makes a "
         "union-reaching type fall outside the model (counted in format_tie)",
         "lazy compilation, module identity and PEP 563 are outside the Coq model (invisible there): covered by the correspondence "
-        "(as invariance) and the oracles; strategies, no_copy_collections, namedtuple_as_dict, non-literal defaults / "
-        "default_factory, non-str mapping keys remain oracle-only",
+        "(as invariance) and the oracles; strategies, no_copy_collections, namedtuple_as_dict, non-str mapping keys "
+        "remain oracle-only (non-literal defaults / default_factory results are in the model since round 5); holders / registries of the "
+        "codec path, the dataclass call site and the installed-method flags are in the model since round 6 (kernel K115a); "
+        "self-referencing dataclasses: one fixed scenario (known finding codec-selfref-construction), not generated",
         "typing interns parametrised generics by equal arguments (List[Union[A,B]] is List[Union[B,A]]): modules in which the "
         "type objects do not have the generated member order are dropped (stated predicate module_matches_scenario)",
     ]
@@ -1097,7 +1110,7 @@ def run(ctx: vlib.Ctx):
         ctx.hist("root_shape", c.ty[0])
     coq_cases = [coq_case(c) for c in cases]
     bad, log = vlib.coq_bad_idx("c15_corr", "C15Model", "", defs, coq_cases, OK_FUN, CASE_TYPE, shard=300,
-                                needs=["theories/C15Model.vo"])
+                                timeout=1800, needs=["theories/C15Model.vo"])
     corr_bad = []
     if bad is None:
         ctx.correspondence("model-vs-impl (both paths, pack+unpack)", len(cases), -1, log)
@@ -1109,12 +1122,12 @@ def run(ctx: vlib.Ctx):
         if bad:
             ctx.not_shown("correspondence model-vs-impl", detail)
     unm, _ = vlib.coq_bad_idx("c15_unm", "C15Model", "", defs, coq_cases, UNMODELLED_FUN, CASE_TYPE, shard=300,
-                              needs=["theories/C15Model.vo"])
+                              timeout=1800, needs=["theories/C15Model.vo"])
     ctx.hist("corr_dropped", "unmodelled", len(unm or []))
     # domain of the agreement theorem, decided by the Coq predicates themselves
     pack_idx = [k for k, c in enumerate(cases) if c.isp and c.mode == "mixin"]
     outdom, dlog = vlib.coq_bad_idx("c15_dom", "C15Model", "", defs, [coq_cases[k] for k in pack_idx], DOMAIN_FUN,
-                                    CASE_TYPE, shard=300, needs=["theories/C15Model.vo"])
+                                    CASE_TYPE, shard=300, timeout=1800, needs=["theories/C15Model.vo"])
     if outdom is None:
         ctx.not_shown("domain predicates (exact/no_lookalike_union/dialect_compat) did not evaluate", dlog)
         outdom = list(range(len(pack_idx)))
@@ -1188,12 +1201,18 @@ def run(ctx: vlib.Ctx):
                 by_root.setdefault(i, []).append(v)
         oracle_frame(ctx, sc, src, by_root, ctx.budget(4, 8))
 
+    # ---------------- holders of the codec path: theorems over kernel K115a + tie with the real builders' registries
+    ctx.theorems("props/C15_holders.vo", HOLDER_THEOREMS, kernels=["K115a"])
+    from harness import c15holders
+    c15holders.run_holders_tie(ctx, [x for x in loaded if not x[0].wide])
+    c15holders.run_flags_tie(ctx, [x for x in loaded if not x[0].wide])
+
     for (sc, vals, src, mod) in loaded:
         L.unload_module(mod)
 
     # ---------------- (M) correspondence of the format part of the model (C15Format.v over the K2/K13 kernels)
     ctx.theorems("props/C15_formats.vo", FORMAT_THEOREMS, kernels=["K2", "K13", "K13C"])
-    ctx.coqchk(["VerifProps.C15_entrypoints", "VerifProps.C15_formats"])
+    ctx.coqchk(["VerifProps.C15_entrypoints", "VerifProps.C15_formats", "VerifProps.C15_holders"])
     from harness import c15fmt_tie
     tied_for_formats = [(sc, vals) for (sc, vals, src, mod) in loaded if not sc.wide and "~" not in str(sc.sid) and not str(sc.sid).startswith("fx")]
     c15fmt_tie.run_format_tie(ctx, tied_for_formats, ctx.budget(10, 60))
@@ -1368,6 +1387,11 @@ def replay(rep: dict) -> int:
             b = res_key(L.call(lambda: BasicEncoder(S, **kw).encode(s_inst)))
             print("subclass.to_dict:", show(a)); print("codec           :", show(b))
             rc = 1 if a != b else 0
+        elif entry == "generic-self":
+            from harness import c15holders
+            a, b, da, db = c15holders.generic_self_results(mod)
+            print("mixin:", a, da); print("codec:", b, db)
+            rc = 1 if (a != b or da != db) else 0
         else:
             print("unknown replay entry", entry)
             return 2
@@ -1479,8 +1503,10 @@ def scenario_from_module(mod, rep):
             if cfg is not None and isinstance(cfg.__dict__.get(oname), bool):
                 cobj.extra[oname] = str(cfg.__dict__[oname])
         for f in dc.fields(k):
-            if f.name not in inherited and f.default is not dc.MISSING and (f.default is None or type(f.default) in (int, str)):
+            if f.name not in inherited and f.default is not dc.MISSING:
                 cobj.defaults[f.name] = L.canon(f.default)
+            elif f.name not in inherited and f.default_factory is not dc.MISSING:
+                cobj.defaults[f.name] = L.canon(f.default_factory())
         sc.classes.append(cobj)
     sc.roots = [ty_of(t) for t in mod.ROOTS]
     return sc
